@@ -114,6 +114,27 @@ pub fn run(cx: &mut Ctx) {
                                 Err(e) => cx.violation("C12|Kdf<Vec>::derive_subkey|unexpected_err", json!({"err":e.to_string()})),
                             }
                         }
+                        // containers longer than the key / context (a Vec may hold more than the N bytes a ByteArray<N>
+                        // stands for): the first 32 and 8 bytes are the key and the context
+                        for (xk, xc) in [(8usize, 0usize), (0, 4), (33, 9), (1, 1)] {
+                            let mut kv = key.to_vec();
+                            kv.extend(std::iter::repeat(0x6b).take(xk));
+                            let mut cv = ctx8.to_vec();
+                            cv.extend(std::iter::repeat(0x63).take(xc));
+                            let kdf3 = Kdf::from_parts(kv, cv);
+                            let c3 = || json!({"case":case(),"key_container_len":32 + xk,"context_container_len":8 + xc});
+                            if let Some(r) = guard("Kdf<Vec>::derive_subkey(oversized containers)", || kdf3.derive_subkey::<[u8; 32]>(id)).ok() {
+                                cx.eval();
+                                match r {
+                                    Ok(s) if s == want[..] => {}
+                                    Ok(_) => cx.violation("C12|Kdf<Vec>::derive_subkey|mismatch_vs_libsodium|oversized_containers", c3()),
+                                    Err(e) => cx.violation("C12|Kdf<Vec>::derive_subkey|unexpected_err|oversized_containers", json!({"err":e.to_string(),"case":c3()})),
+                                }
+                            } else {
+                                cx.violation("C12|Kdf<Vec>::derive_subkey|panic|oversized_containers", c3());
+                            }
+                            cx.cover("oversized_containers", &format!("+{},+{}", xk, xc));
+                        }
                         let (k2, c2) = kdf.into_parts();
                         expect(cx, "C12|Kdf::into_parts|roundtrip", k2.as_slice() == key && c2.as_slice() == ctx8, case);
                     }
